@@ -131,7 +131,7 @@ pub fn extreme_sizes(seed: u64, idx: u64) -> Scenario {
     sc.request_size = 10000;
     sc.yields = pick_yields(&mut rng);
     let l: u64 = *rng.pick(&[1 << 20, (3 << 20) + 1, (1 << 31) - 1, 1 << 31, (1 << 32) + 4096]);
-    sc.tree = TreeSpec { root: "root".into(), entries: vec![Entry { path: "root/big.bin".into(), kind: EntryKind::File(Content::Sparse { len: l, seed: rng.next() }) }, Entry { path: "root/probe.txt".into(), kind: EntryKind::File(Content::Literal("probe\n".into())) }], mtime_mode: 0 };
+    sc.tree = TreeSpec { root: "root".into(), entries: vec![Entry { path: "root/big.bin".into(), kind: EntryKind::File(Content::Sparse { len: l, seed: rng.next() }) }, Entry { path: "root/probe.txt".into(), kind: EntryKind::File(Content::Literal("probe\n".into())) }], mtime_mode: 0, meta_mode: 0 };
     for i in 0..rng.range(1, 3) {
         let k = *rng.pick(&[1usize, 2, 3, 50, 600, 2300]);
         let specs: Vec<String> = (0..k)
